@@ -168,20 +168,22 @@ def check_dataset(ds, rk, where, deep=True):
     from corankco.dataset import EmptyDatasetException
     for k in range(1, n + 1):
         for kept in itertools.combinations(uni, k):
-            exp = [[[x for x in b if x in kept] for b in r] for r in rk]
-            exp = [[b for b in r if b] for r in exp]
-            exp = retype([r for r in exp if r])
-            for how in ("elements", "ids"):
+            exp_all = [[[x for x in b if x in kept] for b in r] for r in rk]
+            exp_all = [[b for b in r if b] for r in exp_all]
+            for how, keep in (("elements", False), ("ids", False), ("elements", True), ("ids", True)):
+                # keep_empty_rankings=True: rankings that meet none of the kept elements stay, as empty rankings
+                exp = retype(exp_all if keep else [r for r in exp_all if r])
+                kw = {"keep_empty_rankings": True} if keep else {}
                 try:
                     if how == "elements":
-                        sub = ds.sub_problem_from_elements({Element(x) for x in kept})
+                        sub = ds.sub_problem_from_elements({Element(x) for x in kept}, **kw)
                     else:
-                        sub = ds.sub_problem_from_ids({e2i[(type(x).__name__, x)] for x in kept})
+                        sub = ds.sub_problem_from_ids({e2i[(type(x).__name__, x)] for x in kept}, **kw)
                 except EmptyDatasetException:
                     if exp:
                         return f"{where}: projection on {kept} raised EmptyDatasetException"
                     continue
-                msg = check_dataset(sub, exp, f"{where} projection({how}) on {list(kept)}", deep=False)
+                msg = check_dataset(sub, exp, f"{where} projection({how}{', keep_empty_rankings' if keep else ''}) on {list(kept)}", deep=False)
                 if msg:
                     return msg
     return None
